@@ -19,7 +19,7 @@ Qed.
 
 Lemma TblInv_same_tables h h' : same_tables h h' -> TblInv h -> TblInv h'.
 Proof.
-  intros Hst [Hwf Hsym Hnm]. pose proof Hst as [Hlen Hbx]. split.
+  intros Hst [Hwf Hsym Hnm Hlp]. pose proof Hst as [Hlen Hbx]. split.
   - intros o b' Hb'. destruct (nth_error h o) as [b|] eqn:Hb.
     + destruct (Hbx o b Hb) as (b2 & Hb2 & Ht & _). assert (b2 = b') as -> by congruence.
       unfold box_wf. rewrite Ht. apply (Hwf o b Hb).
@@ -29,6 +29,7 @@ Proof.
   - intros a x kd Hp. rewrite (same_tables_lget h h') in Hp by exact Hst.
     destruct (Hnm a x kd Hp) as (bx & Hbx' & Hl). destruct (Hbx x bx Hbx') as (b2 & Hb2 & _ & Hl2).
     exists b2. auto.
+  - intros a x Hp. rewrite (same_tables_lget h h') in Hp by exact Hst. apply Hlp. exact Hp.
 Qed.
 
 Lemma same_tables_setb h o b b' : nth_error h o = Some b -> btable b' = btable b ->
